@@ -95,11 +95,23 @@ def frames_equal(a, b):
     return True
 
 
+def labels_of(det):
+    """Which records a detection frame holds: by its id column, its Index column, or (neither written) its own index."""
+    if det is None:
+        return []
+    for key in ('id', 'Index'):
+        if key in det.columns:
+            return [int(x) for x in det[key].tolist()]
+    return [int(x) for x in det.index.tolist()]
+
+
 def one_run(rnd, df, cdict, outpath, opts, eps):
     """Runs the probe (flags) and the real detection; returns the Detect event fields."""
     from tdda.constraints import detect_df
     ev = {'raised': 'none'}
     n = len(df)
+    # records are identified by their index label (= the id column); events speak of positions
+    pos = {int(lab): i for i, lab in enumerate(df.index.tolist())}
     ev['nrows'] = n
     # probe: per-constraint flags of the failed constraints, all records
     with cl.quiet():
@@ -137,10 +149,10 @@ def one_run(rnd, df, cdict, outpath, opts, eps):
             ev['nfail'] = [int(x) for x in pdet['n_failures'].tolist()] if pdet is not None else []
             if det is not None and 'n_failures' in det.columns:
                 # the filtered frame must carry the same counts on the rows it kept
-                for idx, x in zip(det.index.tolist(), det['n_failures'].tolist()):
-                    if ev['nfail'][idx] != int(x):
-                        ev['nfail'][idx] = int(x)
-        ev['outrows'] = [int(i) + 1 for i in (det.index.tolist() if det is not None else [])]
+                for idx, x in zip(labels_of(det), det['n_failures'].tolist()):
+                    if ev['nfail'][pos[int(idx)]] != int(x):
+                        ev['nfail'][pos[int(idx)]] = int(x)
+        ev['outrows'] = [pos.get(int(i), 10**6 + int(i)) + 1 for i in labels_of(det)]
     else:
         ev.update(npass=0, nfailrec=0, nfail=[], outrows=[])
     ev['fileexists'] = bool(outpath and os.path.exists(outpath))
@@ -153,7 +165,7 @@ def one_run(rnd, df, cdict, outpath, opts, eps):
                 fdf = pd.read_csv(outpath)
             key = 'id' if 'id' in fdf.columns else ('Index' if 'Index' in fdf.columns else None)
             if key:
-                ev['filerows'] = [int(x) + 1 for x in fdf[key].tolist()]
+                ev['filerows'] = [pos.get(int(x), 10**6 + int(x)) + 1 for x in fdf[key].tolist()]
             else:
                 ev['raised'] = 'output file has neither id nor Index column'
             ev['filecols'] = [str(c) for c in fdf.columns]
@@ -173,6 +185,12 @@ def record_sessions(rnd, nsessions, root):
         kind = rnd.choice(['csv', 'parquet', 'none'])
         outpath = None if kind == 'none' else os.path.join(d, 'detected.' + kind)
         base = base_frame(rnd, rnd.randint(3, 7))
+        if rnd.random() < 0.4:
+            # a frame that was sorted / shuffled without reset_index: the index is a permutation of 0..n-1
+            perm = list(range(len(base)))
+            rnd.shuffle(perm)
+            base.index = perm
+            base['id'] = perm
         with cl.quiet():
             cs = discover_df(base.drop(columns=['id']))
         if cs is None:
